@@ -270,6 +270,12 @@ pub struct QueryEngine {
 }
 
 impl QueryEngine {
+    /// `(replication_factor, parallelism_factor)` as constructed (read-only; `node` area).
+    #[cfg(litep2p_verif)]
+    pub(crate) fn verif_factors(&self) -> (usize, usize) {
+        (self.replication_factor, self.parallelism_factor)
+    }
+
     /// Create new [`QueryEngine`].
     pub fn new(
         local_peer_id: PeerId,
